@@ -1,20 +1,18 @@
 SPECIFICATION Spec
 CONSTANTS
-  EffTokens = {"pa", "pae", "sp", "in", "pn", "w", "pab"}
+  EffTokens = {"in"}
   MaxEff = 2
-  Modes = {"normal", "exc"}
+  Modes = {"normal"}
   FnModes = {"normal"}
-  MaxFns = 0
+  MaxFns = 1
   Depth = 3
-  InputOps = {"clear_output", "set_input", "clear_input"}
-  Entries = {"run"}
+  InputOps = {"set_input", "clear_input"}
+  Entries = {"run", "call"}
   TracerStyles = {"none"}
   Threadeds = {FALSE}
   Givens = {"empty", "one", "blank"}
   Flags = {}
 INVARIANT Restored
-INVARIANT Contained
-INVARIANT NoSpuriousFb
 INVARIANT OutputLedger
 INVARIANT InputFifo
 CONSTRAINT Export
